@@ -24,7 +24,9 @@
 EXTENDS Integers, Sequences, FiniteSets, TLC, Json
 
 CONSTANTS MaxLen,
-          TwoPaths     \* TRUE: the timestamp-aware loader is a file-system loader with two search paths (slots 2 and 3)
+          TwoPaths,    \* TRUE: the timestamp-aware loader is a file-system loader with two search paths (slots 2 and 3)
+          NamesUsed,   \* the names the operations range over (a subset of Names: focused configurations)
+          InitAuto     \* auto-reload at the start
 VARIABLES content,     \* content[i][n] : version held by loader i / by search path i of the file-system loader (0 = absent)
           mtime,       \* mtime[i][n] : modification time of n in slot i (timestamp-aware slots)
           loads,       \* loads[i][n] : Load calls loader i has seen for n
@@ -49,7 +51,7 @@ Init == /\ content = [i \in Slots |-> [n \in Names |-> 0]]
         /\ mtime = [i \in Slots |-> [n \in Names |-> 0]]
         /\ loads = [i \in Loaders |-> [n \in Names |-> 0]]
         /\ cache = [n \in Names |-> NoEntry]
-        /\ cacheOn = TRUE /\ autoReload = FALSE /\ clock = 1
+        /\ cacheOn = TRUE /\ autoReload = InitAuto /\ clock = 1
         /\ hist = <<>>
 
 \* what the implementation must show after a step
@@ -96,14 +98,22 @@ Register(n, v) ==
     /\ hist' = Append(hist, [op |-> "register", n |-> n, v |-> v + 10, obs |-> Observation(-1, cache', loads)])
     /\ UNCHANGED <<content, mtime, loads, cacheOn, autoReload>>
 
+\* registering a compiled template is a registration like any other: it replaces what the name had, whatever time
+\* stamp the compiled form carries (old: 0, new: far in the future); versions 21, 22
+RegCompiled(n, v, old) ==
+    /\ n \in RegNames /\ cacheOn
+    /\ cache' = [cache EXCEPT ![n] = [ver |-> v + 20, from |-> 0, lastMod |-> IF old THEN 0 ELSE 1000000]]
+    /\ hist' = Append(hist, [op |-> "regcompiled", n |-> n, v |-> v + 20, b |-> old, obs |-> Observation(-1, cache', loads)])
+    /\ UNCHANGED <<content, mtime, loads, cacheOn, autoReload, clock>>
+
 \* a content change always raises the time stamp (a change with an equal stamp is undetectable by design)
 \* every write to a file gets a time stamp newer than every stamp the name has had.  A file may be put into the first
-\* search path only while the second does not hold the name: which copy a file-system loader that has already served
-\* the back copy prefers when a front copy appears later is not stated anywhere.
+\* search path only while the second does not hold the name or the loader has never been asked for it: which copy a
+\* file-system loader that has already served the back copy prefers when a front copy appears later is not stated anywhere.
 NewestStamp(n) == LET S == {mtime[j][n] : j \in Slots \ {1}} IN CHOOSE m \in S : \A x \in S : x <= m
 Put(i, n, v) ==
     /\ i \in Slots /\ n \in LoaderNamesOf(i) /\ content[i][n] # v
-    /\ (TwoPaths /\ i = 2 => content[3][n] = 0)
+    /\ (TwoPaths /\ i = 2 => content[3][n] = 0 \/ loads[2][n] = 0)
     /\ content' = [content EXCEPT ![i][n] = v]
     /\ mtime' = IF TsAware(i) THEN [mtime EXCEPT ![i][n] = NewestStamp(n) + 1] ELSE mtime
     /\ hist' = Append(hist, [op |-> "put", i |-> i, n |-> n, v |-> v, mt |-> mtime'[i][n], obs |-> Observation(-1, cache, loads)])
@@ -132,10 +142,11 @@ SetDevMode(b) ==
 
 Next ==
     /\ Len(hist) < MaxLen
-    /\ \/ \E n \in Names : Render(n)
-       \/ \E n \in RegNames : \E v \in Vers : Register(n, v)
-       \/ \E i \in Slots : \E n \in Names : \E v \in Vers : Put(i, n, v)
-       \/ \E i \in Slots : \E n \in Names : Delete(i, n)
+    /\ \/ \E n \in NamesUsed : Render(n)
+       \/ \E n \in RegNames \cap NamesUsed : \E v \in Vers : Register(n, v)
+       \/ \E n \in RegNames \cap NamesUsed : \E old \in BOOLEAN : RegCompiled(n, 1, old)
+       \/ \E i \in Slots : \E n \in NamesUsed : \E v \in Vers : Put(i, n, v)
+       \/ \E i \in Slots : \E n \in NamesUsed : Delete(i, n)
        \/ \E b \in BOOLEAN : SetCache(b) \/ SetAutoReload(b) \/ SetDevMode(b)
 Spec == Init /\ [][Next]_vars
 
@@ -149,11 +160,12 @@ P3changed == [][IsRender /\ cacheOn /\ Stale(Last.n) /\ FirstWith(Last.n) # 0 =>
 P4 == [][IsRender /\ cacheOn /\ ~autoReload /\ cache[Last.n].ver # 0 => (Last.obs.served = cache[Last.n].ver /\ loads' = loads)]_vars
 P5 == [][IsRender /\ ~cacheOn /\ content[1][Last.n] # 0 => Last.obs.served = content[1][Last.n]]_vars
 P6 == [][IsRender /\ Last.obs.served = 0 => cache' = cache]_vars
-P1 == [][(hist' # hist /\ Last.op = "register") => cache'[Last.n].ver = Last.v]_vars
+P1 == [][(hist' # hist /\ Last.op \in {"register", "regcompiled"}) => cache'[Last.n].ver = Last.v]_vars
 TypeOK == \A n \in Names : cache[n].ver # 0 => (cache[n].from = 0 \/ cache[n].from \in Slots)
 
 Complete == Len(hist) = MaxLen /\ hist[MaxLen].op = "render"
 OpTags == {hist[i].op : i \in 1..Len(hist)}
 Emit == Complete => PrintT(ToJson([prop |-> "C15", key |-> ToJson([i \in 1..Len(hist) |-> [o \in (DOMAIN hist[i]) \ {"obs"} |-> hist[i][o]]]),
-                                   tags |-> {"op:" \o o : o \in OpTags}, ops |-> hist]))
+                                   tags |-> {"op:" \o o : o \in OpTags} \cup (IF TwoPaths THEN {"twopaths", "fsloader"} ELSE {}), ops |-> hist,
+                                   fs |-> TwoPaths, auto |-> InitAuto]))
 =============================================================================
